@@ -443,6 +443,23 @@ func (s *Solver) fallback(extra []*Term) string {
 	c1 := run("cvc5int", "cvc5", "--solve-bv-as-int=sum", "--produce-models", fmt.Sprintf("--tlimit=%d", s.fbTimeout*1000), file)
 	c2 := run("z3", "z3", fmt.Sprintf("-T:%d", s.fbTimeout), file)
 	res := "unknown"
+	if os.Getenv("VX_FB_DIFF") != "" {
+		// differential mode: wait for both back ends and compare the verdicts
+		a1, a2 := <-ch, <-ch
+		if a1.res != "unknown" && a2.res != "unknown" && a1.res != a2.res {
+			keep := file + ".disagree"
+			os.WriteFile(keep, []byte(q.String()), 0o644)
+			fmt.Fprintf(os.Stderr, "FALLBACK-DISAGREE %s=%s %s=%s file=%s\n", a1.who, a1.res, a2.who, a2.res, keep)
+			s.stats.Errors++
+			if s.stats.FirstError == "" {
+				s.stats.FirstError = "fall-back solvers disagree: " + keep
+			}
+			return "unknown"
+		}
+		fmt.Fprintf(os.Stderr, "FALLBACK-DIFF %s=%s %s=%s\n", a1.who, a1.res, a2.who, a2.res)
+		ch <- a1
+		ch <- a2
+	}
 	for i := 0; i < 2; i++ {
 		a := <-ch
 		if a.res == "sat" || a.res == "unsat" {
